@@ -181,4 +181,39 @@ PROPS = {
             "duplicate items and non-numeric year text are not generated (the statement does not define their result)",
         ],
     },
+
+    "C04": {
+        "level": "exploration",
+        "profiles": ["chk"],
+        "death_is_violation": True,
+        "min_evals": {"quick": 5000, "thorough": 50000},
+        "rule": ("for each of 48 box types (plus BoxHeader across the 2^32 boundary) the shape space - version 0/1, every combination of flag bits "
+                 "gating optional fields (2^5 for tfhd, 2^6+cts for trun), optional children present/absent, list lengths 0/1/2/3/17 - is enumerated "
+                 "exhaustively and each shape is filled with boundary-biased random field values (6 draws per shape quick, 60 thorough); 0-2 random "
+                 "sibling boxes follow the box. Checks: write_box returns box_size() = bytes written = header size field, header fourcc is the type's "
+                 "own code; decoding (BoxHeader::read + read_box) yields an equal value and leaves the stream exactly at the box end; reference and "
+                 "64-bit-header encodings that the decoder accepts re-encode to a fixpoint; to_json/summary do not panic. distinct = (box type, shape); "
+                 "non-trivial = some optional/variable part present."),
+        "assumptions": [
+            "representable values: flags consistent with Option fields, list lengths within the width of their count field, strings without interior NUL, bit-packed fields within their widths, stsz.sample_sizes empty when sample_size != 0, AudioSpecificConfig in the 2-byte domain (AOT < 31, frequency index < 15), stsc first_sample consistent with the entries",
+            "IlstItemBox has no encoder of its own and is covered through IlstBox",
+        ],
+    },
+    "C05": {
+        "level": "exploration",
+        "profiles": ["chk"],
+        "death_is_violation": True,
+        "min_evals": {"quick": 5000, "thorough": 50000},
+        "rule": ("same box/shape/value space as C04; every case is produced as an abstract field list from which the library value and the reference "
+                 "bytes (independent encoder harness/src/refenc.rs, DESIGN Appendix A) derive. Checks: write_box(value) equals the reference bytes "
+                 "(item-list children compared as a multiset); the reference bytes, their 64-bit-header form, sample entries with a random compressor name, "
+                 "hvcC with reserved bits set decode to the same value and leave the stream at the box end. In addition esds boxes over the whole "
+                 "AudioSpecificConfig domain (object types 1-94 incl. the escape form, all frequency indices, padded 1-4 byte descriptor lengths at each of "
+                 "the four levels) are decoded field by field, and whole reference files with AAC tracks in ISO, QuickTime v1 and QuickTime wave forms are "
+                 "opened and the codec-parameter accessors compared. distinct = (box type, shape) plus (escape, index-15, padding pattern) classes."),
+        "assumptions": [
+            "reserved / pre-defined bits are not fields: the reference uses the values the library writes where the specification leaves a choice to the writer (hvcC reserved bits 0) and both values in the decode direction",
+            "random mode avoids frequency index 15 (known finding K3); every 7th esds case probes it and attributes only chan_conf mismatches to K3",
+        ],
+    },
 }
